@@ -31,7 +31,7 @@ func trCount(tr []string, prefix string) int {
 	return n
 }
 
-// verif:harness props=C01 tprops=C02 tier=quick weight=40
+// verif:harness props=C01 tier=quick weight=40
 // verif:bounds SQLiteStore.Enqueue (max_depth 5, reject or drop_oldest), EnqueueBatch(2), Ack (conflict resolution path), AckBatch(2 ids), NackBatch, with EVERY database call (Conn, Exec incl. BEGIN/COMMIT/ROLLBACK, QueryRow/Scan, Query/Rows, RowsAffected) failing or answering arbitrarily: every fault schedule
 func VerifC01SQLiteTxDiscipline() {
 	s := &SQLiteStore{db: vrt.StubDB(), nowFn: time.Now, maxDepth: 5, metrics: newSQLiteRuntimeMetrics(), notify: make(chan struct{})}
